@@ -48,6 +48,7 @@ OPS = {
     "smooth13": dict(fn=lambda da, a: da.spec.smooth(1, 3)),
     "interp": dict(fn=lambda da, a: da.spec.interp(freq=np.array([0.07, 0.1, 0.3]), dir=np.array([10.0, 100.0, 350.0])), stubs=_interp),
     "rotate": dict(fn=lambda da, a: da.spec.rotate(45.0), stubs=_interp),
+    "rotate_bin": dict(fn=lambda da, a: da.spec.rotate(float(np.min(np.diff(np.sort(np.asarray(da.dir.values, dtype=float) % 360.0))))), stubs=_interp),   # by one whole bin
     "split": dict(fn=lambda da, a: da.spec.split(fmin=0.075, fmax=0.31), stubs=lambda: [ST.chunk_identity]),
     "split_dir": dict(fn=lambda da, a: da.spec.split(dmin=40.0, dmax=200.0), stubs=lambda: [ST.chunk_identity]),
     # --- rule based partitions
@@ -60,7 +61,7 @@ CHEAP = ["hs", "oned", "momf1", "momd1", "tm01", "goda", "uss_x", "mss", "crsd",
 ROOTS = ["tm02", "dspr", "swe", "dm"]
 PEAKS = ["tp", "tp_raw", "dp", "dpm"]
 PEAKS_SLOW = ["gamma"]
-TRANSFORMS = ["smooth", "smooth13", "interp", "rotate", "split", "split_dir"]
+TRANSFORMS = ["smooth", "smooth13", "interp", "rotate", "rotate_bin", "split", "split_dir"]
 PARTS = ["ptm4", "ptm5", "bbox"]
 
 
